@@ -446,19 +446,32 @@ func run(r *eng.Runner) {
 	r.Group("invalid", "c10.bad", "invalid shapes: second extends, extends inside a block / if / for, duplicate block names (same level, nested, in a child), extends of a missing file, extends with a non-string argument")
 	base := "B{% block a %}a0{% endblock %}"
 	bads := map[string]string{
-		"second-extends":        `{% extends "base" %}{% extends "base" %}`,
-		"second-extends-other":  `{% extends "base" %}{% block a %}x{% endblock %}{% extends "base2" %}`,
-		"extends-in-block":      `{% block a %}{% extends "base" %}{% endblock %}`,
-		"extends-in-if":         `{% if yes %}{% extends "base" %}{% endif %}`,
-		"extends-in-for":        `{% for i in l %}{% extends "base" %}{% endfor %}`,
-		"duplicate-block":       `{% block a %}1{% endblock %}{% block a %}2{% endblock %}`,
-		"duplicate-block-child": `{% extends "base" %}{% block a %}1{% endblock %}{% block a %}2{% endblock %}`,
-		"duplicate-nested":      `{% block a %}1{% block a %}2{% endblock %}{% endblock %}`,
-		"duplicate-nested-deep": `{% block a %}{% if yes %}{% block b %}{% endblock %}{% endif %}{% endblock %}{% block b %}{% endblock %}`,
-		"extends-missing":       `{% extends "nofile" %}`,
-		"extends-nonstring":     `{% extends base %}`,
-		"extends-two-args":      `{% extends "base" "base2" %}`,
-		"extends-no-arg":        `{% extends %}`,
+		"second-extends":            `{% extends "base" %}{% extends "base" %}`,
+		"second-extends-other":      `{% extends "base" %}{% block a %}x{% endblock %}{% extends "base2" %}`,
+		"extends-in-block":          `{% block a %}{% extends "base" %}{% endblock %}`,
+		"extends-in-if":             `{% if yes %}{% extends "base" %}{% endif %}`,
+		"extends-in-for":            `{% for i in l %}{% extends "base" %}{% endfor %}`,
+		"duplicate-block":           `{% block a %}1{% endblock %}{% block a %}2{% endblock %}`,
+		"duplicate-block-child":     `{% extends "base" %}{% block a %}1{% endblock %}{% block a %}2{% endblock %}`,
+		"duplicate-nested":          `{% block a %}1{% block a %}2{% endblock %}{% endblock %}`,
+		"duplicate-nested-deep":     `{% block a %}{% if yes %}{% block b %}{% endblock %}{% endif %}{% endblock %}{% block b %}{% endblock %}`,
+		"extends-in-else":           `{% if no %}x{% else %}{% extends "base" %}{% endif %}`,
+		"extends-in-elif":           `{% if no %}x{% elif yes %}{% extends "base" %}{% endif %}`,
+		"extends-in-empty":          `{% for i in l %}x{% empty %}{% extends "base" %}{% endfor %}`,
+		"extends-in-with":           `{% with z=1 %}{% extends "base" %}{% endwith %}`,
+		"extends-in-macro":          `{% macro m() %}{% extends "base" %}{% endmacro %}`,
+		"extends-in-filter":         `{% filter upper %}{% extends "base" %}{% endfilter %}`,
+		"extends-in-autoescape":     `{% autoescape off %}{% extends "base" %}{% endautoescape %}`,
+		"extends-in-spaceless":      `{% spaceless %}{% extends "base" %}{% endspaceless %}`,
+		"extends-in-ifequal-else":   `{% ifequal 1 2 %}x{% else %}{% extends "base" %}{% endifequal %}`,
+		"extends-in-ifchanged-else": `{% ifchanged 1 %}x{% else %}{% extends "base" %}{% endifchanged %}`,
+		"extends-after-if":          `{% if yes %}x{% else %}y{% endif %}{% extends "base" %}{% extends "base" %}`,
+		"extends-in-child-block":    `{% extends "base" %}{% block a %}{% extends "base2" %}{% endblock %}`,
+		"duplicate-block-in-else":   `{% if yes %}{% block a %}1{% endblock %}{% else %}{% block a %}2{% endblock %}{% endif %}`,
+		"extends-missing":           `{% extends "nofile" %}`,
+		"extends-nonstring":         `{% extends base %}`,
+		"extends-two-args":          `{% extends "base" "base2" %}`,
+		"extends-no-arg":            `{% extends %}`,
 	}
 	var labels []string
 	for k := range bads {
